@@ -470,6 +470,96 @@ def eliminate_continue(text, log, item_name):
 
 
 
+def _split_top_commas(m, start, end):
+    """positions of top-level commas in masked text m[start:end]"""
+    out = []
+    d = 0
+    for k in range(start, end):
+        ch = m[k]
+        if ch in "([{":
+            d += 1
+        elif ch in ")]}":
+            d -= 1
+        elif ch == "," and d == 0:
+            out.append(k)
+        elif ch == "|" and d == 0:
+            pass
+    return out
+
+
+def desugar_option_adapters(text, log, item_name):
+    """R19 (generic): at `let` statements, closure-taking Option adapters are written as the `match` they abbreviate:
+         let X = RECV.map_or(D, |P| B);      -> let X = match RECV { Some(P) => B, None => D };
+         let X = RECV.map(|P| B);            -> let X = match RECV { Some(P) => Some(B), None => None };
+         let X = RECV.is_some_and(|P| B);    -> let X = match RECV { Some(P) => B, None => false };
+       (closures in Option adapters are outside the Verus subset).  Only closures without `return`/`?` are rewritten."""
+    n_done = 0
+    guard = 0
+    while guard < 50:
+        guard += 1
+        m = mask(text)
+        hit = None
+        for mt in re.finditer(r"\.(map_or|map|is_some_and)\(", m):
+            call_open = mt.end() - 1
+            # closing paren
+            d = 0
+            close = None
+            for k in range(call_open, len(m)):
+                if m[k] in "([{":
+                    d += 1
+                elif m[k] in ")]}":
+                    d -= 1
+                    if d == 0:
+                        close = k
+                        break
+            if close is None or not re.match(r"\s*;", m[close + 1:]):
+                continue
+            # statement start: nearest preceding `let` with only balanced text in between and no `;`
+            stmt = None
+            for lm in re.finditer(r"\blet\s+(?:mut\s+)?(\w+)(?:\s*:\s*[^=;]+)?\s*=\s*", m[:mt.start()]):
+                stmt = lm
+            if stmt is None:
+                continue
+            between = m[stmt.end():mt.start()]
+            if ";" in between or between.count("(") != between.count(")") or between.count("{") != between.count("}"):
+                continue
+            kind = mt.group(1)
+            commas = _split_top_commas(m, call_open + 1, close)
+            if kind == "map_or":
+                if len(commas) < 1:
+                    continue
+                default = text[call_open + 1:commas[0]].strip()
+                clo = text[commas[0] + 1:close].strip().rstrip(",").strip()
+            else:
+                default = None
+                clo = text[call_open + 1:close].strip().rstrip(",").strip()
+            cm = re.match(r"\|\s*([^|]*?)\s*\|\s*(.*)$", clo, re.S)
+            if not cm:
+                continue
+            pat, body = cm.group(1), cm.group(2).strip()
+            if re.search(r"\breturn\b|\?", mask(body)):
+                continue
+            recv = text[stmt.end():mt.start()].strip()
+            recv = re.sub(r"\s*\n\s*", "", recv)
+            if kind == "map_or":
+                repl = "match %s { Some(%s) => { %s }, None => { %s } }" % (recv, pat, body, default)
+            elif kind == "map":
+                repl = "match %s { Some(%s) => Some({ %s }), None => None }" % (recv, pat, body)
+            else:
+                repl = "match %s { Some(%s) => { %s }, None => false }" % (recv, pat, body)
+            hit = (stmt.end(), close + 1, repl)
+            break
+        if hit is None:
+            break
+        text = text[:hit[0]] + hit[2] + text[hit[1]:]
+        n_done += 1
+    if n_done:
+        log.append(dict(item=item_name, rule="R19", before="let X = RECV.{map_or,map,is_some_and}(.., |P| B);",
+                        after="let X = match RECV { Some(P) => .., None => .. };", times=n_done))
+    return text
+
+
+
 def apply_edits(text, edits, log, item_name):
     """literal / regex rewrites with mandatory match counts"""
     for e in edits or []:
@@ -479,6 +569,9 @@ def apply_edits(text, edits, log, item_name):
             continue
         if e.get("elim_continue"):
             text = eliminate_continue(text, log, item_name)
+            continue
+        if e.get("option_adapters"):
+            text = desugar_option_adapters(text, log, item_name)
             continue
         count = e.get("count", 1)
         if "find" in e:
